@@ -4,6 +4,9 @@ import json, os
 V = "/verif"
 CLAIMED = {
  # id: (clause text, technique, level_note, design_ref)
+ "C19": ("Decides the structural clause of read-only, height-exact queries for every request at once: nothing reachable from Query calls an overlay method of a live ledger (tree reads and ImmutableLedgerAt only), reaches a durable-write API of tm-db/iavl/go-ethereum, writes in-memory controller state or touches the live EVM state; the vm_call state is the scratch wrapper of ImmutableStateAt with the immutable account handler; every handler opens its immutable ledger / state at a height data-dependent on the request height and reads the committed tree; height 0 maps to the last committed height; dispatch tables of RigoApp.Query and the controllers agree; no tree version is ever deleted or overwritten in the module. It does not decide the returned bytes.",
+         "call-graph reachability with who-may-call tables (durable-write APIs, ledger overlay vocabulary) + data-dependence of the height argument + sibling agreement of dispatch tables",
+         "trusted: go/ssa, call graph; on the query path the StateDBWrapper's IAccountHandler is resolved to ImmuAcctCtrler, justified by the checked construction in ImmutableStateAt (Q-1e)", "DESIGN.md §3 C19"),
  "C06": ("Decides the structural mechanism of isolation for all interleavings at ABCI-call granularity: an exec-context analysis labels every program point of every function reachable from an ABCI entry with the set of contexts (consensus T / CheckTx F / Query Q) it can run in, refined by dominating tests of the exec flag; consensus-overlay ledger methods are called only at T points and mempool-overlay methods never at T points (both arms of the method-value idiom, same ledger); every value bound to an exec parameter or stored as the flag is the flag itself or a constant that agrees with the calling context; no in-memory controller state is written outside T; the live EVM state is touched only at T; every successful ledger commit resets the mempool overlay. It does not decide sub-call races.",
          "interprocedural exec-context (typestate-like) dataflow over SSA + repaired VTA call graph; who-may-write rule on controller-state fields; must-pass-through on FinalityLedger.Commit",
          "trusted: go/ssa, call graph (closures take the context of their creation point; go-ethereum's callbacks into StateDBWrapper are modelled at every ApplyMessage site); the query-side StateDBWrapper is the scratch one (C17 E-5)", "DESIGN.md §3 C06"),
